@@ -15,12 +15,16 @@ import re
 from decimal import Decimal, InvalidOperation
 
 from .common import Check
-from .pyval import CLS_BY_NAME, canon, decode, encode, walk
+from .pyval import CLS_BY_NAME, canon, walk
+from .pyval import decode as _pv_decode, encode as _pv_encode
 
 STRICT = ["gt", "ge", "lt", "le", "const", "enum", "regex", "decimal_places", "multiple_of", "max_digits", "length",
           "max_length", "min_length", "unique_items"]
 LAXABLE = ["ge", "le", "const", "enum", "decimal_places", "multiple_of", "max_digits", "length", "max_length", "unique_items"]
 TOLERANT = [{int, float}, {int, Decimal}, {float, Decimal}]
+
+
+from collections import deque as _deque
 
 
 def enc2(v):
@@ -40,7 +44,9 @@ def enc2(v):
         return {"K": [enc2(x) for x in v]}
     if type(v) is bytes:
         return {"y": v.hex()}
-    return encode(v)
+    if type(v) is _deque:
+        return {"q": [enc2(x) for x in v]}
+    return _pv_encode(v)
 
 
 def dec2(j):
@@ -61,11 +67,14 @@ def dec2(j):
             return {dec2(x): None for x in j["K"]}.keys()
         if "y" in j:
             return bytes.fromhex(j["y"])
-    return decode(j)
+        if "q" in j:
+            return _deque(dec2(x) for x in j["q"])
+    return _pv_decode(j)
 
 
 
-ORIGINS = dict(CLS_BY_NAME, dict=dict)
+encode, decode = enc2, dec2      # (a superset of the pyval codec: dicts, dict views, bytes, deques)
+ORIGINS = dict(CLS_BY_NAME, dict=dict, deque=_deque)
 
 
 # ------------------------------------------------------------------------------------------------
@@ -105,7 +114,7 @@ def impl(case):
             return {"err": type(e).__name__}
         return {"ok": encode(r)}
     if op == "rule":
-        origin = CLS_BY_NAME[case["origin"]]
+        origin = ORIGINS[case["origin"]]
         attrs = {}
         for name, b in case["constraints"]:
             val = decode(b)
@@ -1227,11 +1236,11 @@ def rnd_seq(rng, kind):
                           [[1], [1.0], {1}, {1.0}, {True}], [[Decimal("1.0")], [1], [Decimal("1")], [[1, 2]], [[1.0, 2.0]]],
                           [[1], [1, 2], [1.0], []]])
         items = [rng.choice(fam) for _ in range(max(n, rng.choice([0, 2, 3])))]
-    return items if kind == "list" else tuple(items)
+    return items if kind == "list" else _deque(items) if kind == "deque" else tuple(items)
 
 
 def gen_rule_case(rng, lax_mode=False):
-    origin = rng.choice(["int", "int", "float", "Decimal", "Decimal", "str", "list", "tuple", "set"])
+    origin = rng.choice(["int", "int", "float", "Decimal", "Decimal", "str", "list", "tuple", "set", "deque", "frozenset"])
     cs = {}
     if origin in ("int", "float", "Decimal"):
         mk = {"int": lambda: rng.choice(INT_BOUNDS), "float": lambda: rng.randint(-20, 40) / rng.choice([1, 2, 4]),
@@ -1692,7 +1701,7 @@ def gen_validator_case(rng, names):
                 v = rng.choice([v, rnd_num(rng, rng.choice(["int", "float", "Decimal"]))])
     elif base in ("length", "max_length", "min_length"):
         b = rng.randint(0, 5)
-        v = rng.choice([rng.choice(STRS), rnd_seq(rng, rng.choice(["list", "tuple", "set"])), rng.randint(-5, 12345), 1.5])
+        v = rng.choice([rng.choice(STRS), rnd_seq(rng, rng.choice(["list", "tuple", "set", "deque", "frozenset"])), rng.randint(-5, 12345), 1.5])
     elif base == "regex":
         b = rng.choice(PATTERNS)
         v = rng.choice(STRS + [123, 12, 1.5, "abc-def"])
@@ -1715,7 +1724,7 @@ def gen_validator_case(rng, names):
                         Decimal("Infinity"), Decimal("NaN"), rng.randint(-80, 80) / rng.choice([1, 2, 4, 8])])
     else:  # unique_items
         b = rng.random() < 0.9
-        v = rnd_seq(rng, rng.choice(["list", "tuple", "set", "list"]))
+        v = rnd_seq(rng, rng.choice(["list", "tuple", "set", "list", "deque", "deque", "frozenset"]))
     return {"op": "validator", "name": name, "value": encode(v), "bound": encode(b)}
 
 
@@ -1826,6 +1835,8 @@ class C02(Check):
             line["constraints"] = [[("lax_" + n) if n in lax else n, b] for n, b in case["constraints"]]
         if case["op"] == "multi":
             return {"op": "skip"}
+        if case["op"] in ("validator", "rule") and '"q":' in json.dumps(case.get("value")):
+            return {"op": "skip"}         # a deque is outside PyVal: judged by the oracle and the re-parse only
         if case["op"] == "ptype":
             # the simple predefined types are strict constraint sets on a source type: the model runs the FROZEN declaration
             name, v = case["name"], dec2(case["value"])
@@ -1848,7 +1859,7 @@ class C02(Check):
                 return {"op": "skip"}
             line = {"op": "decl", "origin": case["origin"], "mro": mro, "types": case["types"], "value": case["value"],
                     "prims": line["prims"]}
-            if case["origin"] == "dict":
+            if case["origin"] == "dict" or '"q":' in json.dumps(case["value"]):
                 line["value"] = None
                 line["nomodel"] = True          # PyVal has no mappings: the model answers for the compiled validators only
         return line
@@ -1929,7 +1940,7 @@ class C02(Check):
             v, b = decode(case["value"]), decode(case["bound"])
             if name in ("max_digits", "decimal_places", "multiple_of") and not isinstance(v, (int, float, Decimal)):
                 return None
-            if name == "unique_items" and not isinstance(v, (list, tuple, set, frozenset)):
+            if name == "unique_items" and not isinstance(v, (list, tuple, set, frozenset, _deque)):
                 return None
             if name == "enum" and not isinstance(b, (list, tuple, set)):
                 return None
